@@ -205,6 +205,21 @@ def parse_nat_list(out, marker='= '):
     return res
 
 
+def parse_list_list(out):
+    """parse the answer of Eval vm_compute ... : list (list Z)"""
+    m = re.search(r'=\s*(\[.*\]|nil)\s*:\s*list \(list Z\)', out.replace('\n', ' '), re.S)
+    if not m:
+        return None
+    body = m.group(1)
+    if body == 'nil':
+        return []
+    body = body.replace('%Z', '').replace(';', ',')
+    try:
+        return [list(x) for x in eval(body, {'__builtins__': {}})]
+    except Exception:
+        return None
+
+
 def zl(xs):
     return '[' + ';'.join(str(int(x)) if x >= 0 else '(%d)' % x for x in xs) + ']'
 
